@@ -281,7 +281,11 @@ def item_select_sw(repo, out):
         return lines.index(text)
     i1 = need("kwargs['spw']=spw=kwargs.get('spw',self.spw)", 'spw defaults to the current one')
     i2 = need("kwargs['subarray']=subarray=kwargs.get('subarray',self.subarray)", 'subarray defaults to the current one')
-    guards = [n for n in fn.body if isinstance(n, ast.If) and _src(n.test) in ('not0<=spw<len(self.spectral_windows)', 'not0<=subarray<len(self.subarrays)')]
+    # (since katdal fix b2702b1 the guards also reject negative indices: `not 0 <= spw < len(...)`; both forms raise
+    # IndexError for an index beyond the list, which is all Model/ConcatMulti.v assumes)
+    guards = [n for n in fn.body if isinstance(n, ast.If) and _src(n.test) in (
+        'spw>=len(self.spectral_windows)', 'subarray>=len(self.subarrays)',
+        'not0<=spw<len(self.spectral_windows)', 'not0<=subarray<len(self.subarrays)')]
     if len(guards) != 2 or not all(len(g.body) == 1 and isinstance(g.body[0], ast.Raise) and _src(g.body[0].exc).startswith('IndexError(')
                                    for g in guards):
         raise TranslateError('DataSet.select: spw / subarray beyond the lists do not raise IndexError')
